@@ -24,7 +24,7 @@ var msgsBasePoints = []string{"nochan", "open-v0", "open-v1", "paid-v0", "paid-v
 var c12mode = msgsMode{Prop: "C12", Reject: true, Probe: true}
 
 var c12plan = msgsPlan{
-	Points: msgsBasePoints,
+	Points: append(append([]string{}, msgsBasePoints...), "await-subfund"),
 	Cats: map[string]bool{"proposal": true, "proposal-c12": true, "update": true, "vfund": true, "vsettle": true,
 		"sync": true, "response": true, "control": true},
 	PairPoints:  []string{"open-v1", "sub-v0"},
